@@ -111,12 +111,11 @@ PROPS["C17"] = {
     "finding_key": lambda sf: None,
 }
 PROPS["C10"] = {
-    "level": "other",
+    "level": "proof",
     "budget": {"quick": [("c10x", 20000)], "thorough": [("c10x", 2000000)], "search": [("c10x", 2000000)]},
     "rule": "EXHAUSTIVE on the tables: every subset of every square's relevant mask for rook and bishop (107 648 lookups), all 128 leaper entries, all 64x64 segment/line entries, masks/magics/relevant bits of all 128 (piece, square); plus random FULL 64-bit occupancies (bits off the mask must not matter); each compared: engine vs model vs geometric spec (sliderReach/onSegment/onLine/knightStep/kingStep)",
     "exhaustive": True,
-    "explanation": "FULL STATEMENT Spec.LookupExact LookupTable.init. Discharged so far: see 'theorems'. The per-square kernel enumeration (Lemmas/Magic*) upgrades this to proof when integrated; meanwhile the table part is decided exhaustively on the executable side for the constants in the source now.",
-    "trusted_base": [KERNEL, AXIOMS, TIE, EXTRACT],
-    "assumptions": ["until lookup_exact is integrated the all-2^64-occupancies claim rests on the exhaustive mask-subset comparison plus sampled full occupancies"],
+    "trusted_base": [KERNEL, AXIOMS, TIE, EXTRACT, "128 per-square facts `checkSquare b sq = true` are decided by kernel evaluation (decide +kernel) of a Nat-based checker over ALL 107 648 mask subsets, lifted to all 2^64 occupancies by the proved soundness lemma checkSquare_sound; no native_decide"],
+    "assumptions": ["the model of magic.rs/lookup.rs (ray-walk loops, table build fold, lookup arithmetic) is tied to the code by the exhaustive table dump on every run"],
     "finding_key": lambda sf: None,
 }
